@@ -54,3 +54,13 @@ func (v *VerifParser) SlotRanges() [][2]uintptr {
 	}
 	return out
 }
+
+// VerifDefaultHandlers returns a fresh copy of the default handler table (one per connection in the server).
+func VerifDefaultHandlers() map[uint16]Handler {
+	g := &GoJT808{}
+	out := map[uint16]Handler{}
+	for k, v := range g.createDefaultHandle() {
+		out[uint16(k)] = v
+	}
+	return out
+}
